@@ -8,12 +8,17 @@
 // and the ID token's issuer (IDoc), every grant type at the token endpoint
 // (IGrants), PKCE: client kind (basic / post / private_key_jwt / public) x challenge
 // method (S256, plain, none) x verifier (hashes to / equals / unrelated to the
-// challenge, or absent) (IPkce), a signed request object per client kind (IReqObj). Then issuer strings for ValidateIssuer / NewProvider (IIssuer) and
-// client.Discover against a stub transport (IDiscover).
+// challenge, or absent) (IPkce), a signed request object per client kind (IReqObj), and every flow
+// that hands out tokens - code, refresh, client_credentials, jwt-bearer, token exchange (access /
+// refresh / ID token), device_code, implicit (id_token / id_token token) - with the iss claim of
+// every ID token and JWT access token against the document's issuer (ITokens, tokens.go). Then issuer
+// strings for ValidateIssuer / NewProvider (IIssuer) and client.Discover against a stub transport
+// (IDiscover).
 package main
 
 import (
 	"context"
+	"encoding/json"
 	"errors"
 	"fmt"
 	"io"
@@ -89,6 +94,16 @@ var grantStrings = []string{"authorization_code", "implicit", "refresh_token", "
 	"urn:ietf:params:oauth:grant-type:device_code", "password", "urn:ietf:params:oauth:grant-type:saml2-bearer",
 	"Authorization_Code", "refresh_token "}
 
+// near misses of the known grant type names (case, white space, Unicode case folding: U+017F long s,
+// U+212A Kelvin sign; trailing slash, short name) and keyword-like values: none of them is a grant type
+var grantNearMisses = []string{" refresh_token", "refresh_token\t", "refresh_token\n", "refresh_token\r\n", "REFRESH_TOKEN", "Refresh_Token",
+	"client_credential\u017f", "CLIENT_CREDENTIALS", "client_credentials/", " client_credentials ",
+	"urn:ietf:params:oauth:grant-type:to\u212aen-exchange", "URN:IETF:PARAMS:OAUTH:GRANT-TYPE:TOKEN-EXCHANGE", "token-exchange", "token_exchange",
+	"urn:ietf:params:oauth:grant-type:device_code/", "urn:ietf:params:oauth:grant-type:Device_Code", "device_code",
+	"urn:ietf:params:oauth:grant-type:jwt-bearer ", "urn:ietf:params:oauth:grant-type:JWT-BEARER", "jwt-bearer",
+	"authorization_code ", "AUTHORIZATION_CODE", "authorization_code\x00", "code", "Implicit", "implicit ",
+	"null", "NULL", "nil", "undefined", "true", "false", "0", "[]", "{}"}
+
 const verifier = "verifier-verifier-verifier-verifier-verifier-123"
 
 // pkceCase: which challenge goes with the authorization request and what the token request sends.
@@ -113,11 +128,24 @@ func pkceCases() []pkceCase {
 				pkceCase{k, m, "VAbsent", verifier, ""})
 		}
 		out = append(out, pkceCase{k, "", "VNone", "", verifier}, pkceCase{k, "", "VAbsent", "", ""})
+		// method names that are neither S256 nor plain (case, white space, keyword): never advertised;
+		// VerifyCodeChallenge hashes for exactly "S256" and compares as is otherwise
+		for _, m := range pkceNearMisses {
+			out = append(out, pkceCase{k, m, "VS256", opfix.S256(verifier), verifier}, pkceCase{k, m, "VPlain", verifier, verifier})
+		}
 	}
 	return out
 }
 
+var pkceNearMisses = []string{"s256", "S256 ", " S256", "PLAIN", "null"}
+
+var pkceMethodTag = map[string]string{"": "none", "s256": "s256-lower", "S256 ": "S256-trailing-space", " S256": "S256-leading-space", "PLAIN": "PLAIN-upper"}
+
 var roCursor int
+var tokCursor int // walks through the client kinds for the token flows
+var tokJWT int    // access-token type of the token flows
+
+const nTokSeq = 4  // positions of a request sequence at which the token flows are run
 var pkceCursor int // walks through pkceCases() across configurations so that every cell is visited evenly
 
 func optStrList(l [nEps]*string) string {
@@ -136,9 +164,17 @@ func runConfig(w *emit.Writer, r drv.Rand, c config, sweep string, nPkce int) {
 		os.Exit(2)
 	}
 	defer f.close()
-	for _, rt := range routers {
+	order := append([]opfix.Router{}, routers...)
+	if r.Bool() { // both orders: nothing served by one router may depend on what the other one served before
+		order[0], order[1] = order[1], order[0]
+	}
+	for _, rt := range order {
 		eps := f.eps[rt]
 		q := randomRequest(r)
+		// one client kind for all token flows of this (configuration, router): the same client under
+		// every request of a sequence; the kinds walk round-robin over the configurations
+		tokKind := clientKinds[tokCursor%len(clientKinds)]
+		tokCursor++
 		cc := c.coq(eps)
 		base := append(c.tags(rt, eps), "sweep="+sweep)
 		if c.FwdHeader != "" {
@@ -194,6 +230,22 @@ func runConfig(w *emit.Writer, r drv.Rand, c config, sweep string, nPkce int) {
 			hk := map[string]any{"config": c, "router": rt.String(), "request": q, "endpoints": eps, "position_in_sequence": k, "sequence": seq}
 			w.Add(emit.Case{Input: emit.Ctor("IDoc", routerCoq(rt), cc, q.coq(), emit.StrList(probes)), Observed: obs,
 				Tags: append([]string{"kind=doc", fmt.Sprintf("seq=%d", k)}, base...), Human: hk})
+
+			// ---- every flow that hands out tokens, under this same request: one client kind per (configuration,
+			// router), the access-token type changes along the sequence, the flows run in a random order (all of them at the first position
+			// of a sequence, a random half at the later ones)
+			if k < nTokSeq && !panicked {
+				kind := tokKind
+				jwt := tokJWT%3 != 2 // two thirds JWT access tokens: opaque ones show no issuer
+				tokJWT++
+				flows := append([]string{}, flowNames...)
+				r.Shuffle(len(flows), func(i, j int) { flows[i], flows[j] = flows[j], flows[i] })
+				if k >= 1 {
+					flows = flows[:len(flows)/2]
+				}
+				f.tokensCase(w, rt, cc, q, d, kind, jwt, flows, drv.Pick(r, []string{"access", "id", "refresh"}),
+					append([]string{fmt.Sprintf("seq=%d", k)}, base...), hk)
+			}
 		}
 		human["request"] = q
 
@@ -201,6 +253,9 @@ func runConfig(w *emit.Writer, r drv.Rand, c config, sweep string, nPkce int) {
 		if eps[iToken].Kind != epNil {
 			gs := append([]string{}, grantStrings...)
 			gs = append(gs, fmt.Sprintf("x-%x", r.Bytes(4)))
+			for n := 0; n < 5; n++ {
+				gs = append(gs, drv.Pick(r, grantNearMisses))
+			}
 			answers := make([]string, len(gs))
 			for i, g := range gs {
 				gr := f.grantProbe(rt, q, g)
@@ -239,8 +294,8 @@ func runConfig(w *emit.Writer, r drv.Rand, c config, sweep string, nPkce int) {
 					obs = emit.Ctor("OPkce", emit.StrList(d.pkce), emit.Bool(tr.Status == 200 && tr.Str("access_token") != ""))
 				}
 				method := pc.method
-				if method == "" {
-					method = "none"
+				if t, ok := pkceMethodTag[method]; ok {
+					method = t
 				}
 				w.Add(emit.Case{Input: emit.Ctor("IPkce", routerCoq(rt), cc, pc.kind.coq, ch, pc.rel), Observed: obs,
 					Tags: append([]string{"kind=pkce", "client=" + pc.kind.auth, "method=" + method, "rel=" + pc.rel}, base...), Human: human})
@@ -290,8 +345,22 @@ var (
 		{"https://op.example.com?", false, "F16"}, {"https://op.example.com?&", false, "F16"}, {"https://op.example.com#", false, "F16"},
 		{"https://op.example.com/#", false, "F16"}, {"https://op.example.com?#", false, "F16"}, {"https://op.example.com/oidc?&&", false, "F16"},
 		// a port is not a host
-		{"https://:8080", true, "port-only"}, {"https://:443/oidc", true, "port-only"}}
-	pathStrings = []string{"", "/", "/oidc", "oidc", "/a/b/", "/oidc?", "/oidc?x=1", "?x", "/oidc#", "/oidc#f", "#", "?", "/%zz", "/oidc?&", "/oidc?#", "/o/#?", "/oidc/%2F", "/\x7f"}
+		{"https://:8080", true, "port-only"}, {"https://:443/oidc", true, "port-only"},
+		// keyword-like values: relative references without a host
+		{"null", true, "keyword"}, {"NULL", true, "keyword"}, {"nil", true, "keyword"}, {"undefined", true, "keyword"}, {"true", true, "keyword"},
+		{"false", true, "keyword"}, {"0", true, "keyword"}, {"[]", true, "keyword"}, {"{}", true, "keyword"},
+		// white space around an otherwise fine issuer (plain and encoded)
+		{"https://op.example.com ", false, "space"}, {" https://op.example.com", false, "space"}, {"https://op.example.com\t", false, "space"},
+		{"https://op.example.com\n", false, "space"}, {"https://op.example.com/ ", false, "space"}, {"https://op.example.com/%20", false, "space"},
+		{"https://op.example.com/+", false, "space"}, {"https://op.example.com/oidc%3F", false, "encoded-marker"}, {"https://op.example.com/oidc%23", false, "encoded-marker"},
+		// markers behind 1 KiB / 4 KiB of path
+		{"https://op.example.com/" + strings.Repeat("a", 1100), false, "long"}, {"https://op.example.com/" + strings.Repeat("a", 1100) + "?", false, "long-F16"},
+		{"https://op.example.com/" + strings.Repeat("a", 1100) + "#", false, "long-F16"}, {"https://op.example.com/" + strings.Repeat("a", 5000), false, "long"},
+		{"https://op.example.com/" + strings.Repeat("a", 5000) + "?x=1", false, "long-query"}, {"https://op.example.com/" + strings.Repeat("a", 5000) + "#f", false, "long-fragment"},
+		{"https://op.example.com/" + strings.Repeat("a", 5000) + "?", false, "long-F16"}, {"https://op.example.com/" + strings.Repeat("a", 5000) + "#", false, "long-F16"},
+		{"http://" + strings.Repeat("a", 5000) + ".example.com", false, "long-host"}}
+	pathStrings = []string{"", "/", "/oidc", "oidc", "/a/b/", "/oidc?", "/oidc?x=1", "?x", "/oidc#", "/oidc#f", "#", "?", "/%zz", "/oidc?&", "/oidc?#", "/o/#?", "/oidc/%2F", "/\x7f",
+		"/oidc%3F", "/oidc%23", "/oidc ", "null", "/" + strings.Repeat("a", 5000), "/" + strings.Repeat("a", 5000) + "?", "/" + strings.Repeat("a", 5000) + "#", "/" + strings.Repeat("a", 1100) + "?x"}
 )
 
 func markerClass(q, f string) string {
@@ -395,7 +464,8 @@ func issuerCase(w *emit.Writer, api string, is issuerString, insecure bool) {
 type stubTransport struct{ issuer string }
 
 func (s stubTransport) RoundTrip(req *http.Request) (*http.Response, error) {
-	body := fmt.Sprintf(`{"issuer":%q,"authorization_endpoint":"https://x.example.com/authorize","jwks_uri":"https://x.example.com/keys"}`, s.issuer)
+	iss, _ := json.Marshal(s.issuer)
+	body := fmt.Sprintf(`{"issuer":%s,"authorization_endpoint":"https://x.example.com/authorize","jwks_uri":"https://x.example.com/keys"}`, iss)
 	return &http.Response{StatusCode: 200, Header: http.Header{"Content-Type": {"application/json"}},
 		Body: io.NopCloser(strings.NewReader(body)), Request: req}, nil
 }
@@ -433,7 +503,30 @@ func discoverVariants(r drv.Rand, asked string) [][2]string {
 		{asked + fmt.Sprintf("%x", r.Bytes(2)), "random-suffix"},
 		{asked + "?", "qmark"},
 		{asked + "#", "hash"},
+		// differences a 'normalising' comparison would swallow: white space (also encoded), Unicode case
+		// folding (U+017F long s folds to s), case of the path
+		{asked + " ", "trailing-space"},
+		{" " + asked, "leading-space"},
+		{asked + "\t", "trailing-tab"},
+		{asked + "\n", "trailing-lf"},
+		{asked + "\r\n", "trailing-crlf"},
+		{asked + "%20", "trailing-encoded-space"},
+		{asked + "+", "trailing-plus"},
+		{asked + "%2F", "trailing-encoded-slash"},
+		{strings.Replace(asked, "https", "http\u017f", 1), "long-s"},
+		{strings.Replace(asked, "example", "e\u212aample", 1), "kelvin-for-x"},
+		{u.Scheme + "://" + u.Host + strings.ToUpper(u.Path), "path-case"},
+		{strings.Replace(asked, "op.", "OP.", 1), "host-case"},
+		{"null", "keyword-null"},
+		{"undefined", "keyword-undefined"},
 	}
+}
+
+// two issuers beyond 4 KiB that differ in their last byte only, and the long one against itself
+func discoverLong() [][3]string {
+	long := "https://op.example.com/" + strings.Repeat("tenant-0123456789/", 300)
+	return [][3]string{{long + "a", long + "a", "long-same"}, {long + "a", long + "b", "long-last-byte"}, {long + "a", long, "long-truncated"},
+		{long[:1100] + "a", long[:1100] + "b", "1k-last-byte"}}
 }
 
 // ---------------------------------------------------------------- main
@@ -548,13 +641,18 @@ func main() {
 			discoverCase(w, v.s, d[0], d[1])
 		}
 	}
+	for _, d := range discoverLong() {
+		discoverCase(w, d[0], d[1], d[2])
+	}
 
 	err := w.Close(emit.Meta{Property: "C19", Tier: cfg.Tier, Seed: cfg.Seed, Exhaustive: !cfg.Quick && cfg.N == 0,
 		Rule: "grid = 2^5 flags x 2^3 capabilities x {default, custom paths} x {static, host, forwarded} (thorough: all 1536 points, quick: seeded sample), " +
 			"each on both routers with a random request (Host, Forwarded) and issuer variant; for the host / forwarded strategies a sequence of 6 requests (same Host + other Forwarded, other Host + same Forwarded, the first again, no Forwarded, the first again) goes to the one provider instance, one doc case per request; mixed = random per-endpoint default/custom/URL/nil; " +
 			"per (configuration, router): 12 grant strings; PKCE cells client kind x {S256, plain, no challenge} x {VS256, VPlain, VNone, VAbsent} visited round-robin (4 per configuration in quick, 8 in thorough); request objects over client kind x parameter placement (all outside / redirect_uri, state, scope, response_type only inside), same budget; custom endpoint paths take a random shape (trailing slash, no leading slash, double slash, nested) and every advertised URL is fetched as advertised; " +
-			"issuer strings = scheme x authority x path x query marker x fragment marker product + specials; Discover = asked x served variants. " +
-			"Non-trivial = model path class != 0 (everything but the empty-issuer reject); distinct = distinct (input, path class).",
+			"token flows (kind=tokens): per (configuration, router) one client kind (basic / post / private_key_jwt / public, round-robin; credentials sent as registered; every code flow bound to an S256 challenge) runs code, refresh, client_credentials, jwt-bearer, token exchange (access / refresh / ID token requested; subject token = access, ID or refresh token of a code flow), device_code and implicit (id_token, id_token token) in a random order under the request of the doc case - all ten at the first position of a request sequence, a random five at positions 1-3 - with JWT access tokens in two thirds of the cases (client AccessTokenType and JWTProfileTokenType); the iss of every ID token and JWT access token is read; the two routers are visited in a random order; " +
+			"12 + 5 grant strings: the known names, wrong case, white space (blank, tab, CR, LF), Unicode case folding (U+017F, U+212A), trailing slash, short names and keyword-like values (null, undefined, true, 0, [], {}); PKCE method names s256 / 'S256 ' / ' S256' / PLAIN / null besides S256 and plain; " +
+			"issuer strings = scheme x authority x path x query marker x fragment marker product + specials (keyword-like values, white space plain and encoded, markers behind 1 KiB / 4 KiB of path); Discover = asked x served variants (white space, %20, +, long s, Kelvin sign, host / path case, keywords, issuers beyond 4 KiB differing in the last byte). " +
+			"Non-trivial = model path class != 0 (everything but the empty-issuer reject and token cases in which no flow is available); distinct = distinct (input, path class).",
 		Extra: map[string]any{"grid_points": len(grid), "grid_total": 256 * 2 * 3},
 	})
 	if err != nil {
